@@ -147,6 +147,9 @@ def main(argv=None):
           f"violations={len(unknown)} known_fired={sum(1 for v in fired.values() if v)} wall={wall:.1f}s")
     if unknown:
         return 1
+    if not acc.samples:
+        print(f"HARNESS-ERROR property={prop}: the run recorded no sample case for the evidence file")
+        return 2
     if acc.evaluations == 0 or nt < 2:
         print(f"HARNESS-ERROR property={prop}: vacuous run (evaluations={acc.evaluations}, nontrivial={nt})")
         return 2
